@@ -463,7 +463,7 @@ def gen_btor2_lines(rng, n=None):
                                "slice %s %s %d %d" % (ref(), ref(), rng.choice([7, 31]), rng.choice([0, 3]))])
         elif k < 0.9:
             body = "%s %s %s %s" % (rng.choice(["init", "next"]), ref(), ref(), ref())
-        elif k < 0.97:
+        elif k < 0.92:
             body = "%s %s" % (rng.choice(["bad", "constraint", "fair", "output"]), ref())
         else:
             c = rng.choice([1, 2, 3])
@@ -478,6 +478,86 @@ def gen_btor2_lines(rng, n=None):
             s += " ;" + rng.choice(["", " comment", "; double", " x;y"])
         lines.append(s)
     return lines
+
+
+def _btor2_variants():
+    """keyword -> enum variant name (as printed by Debug), from the writer tables of the source"""
+    import re
+    src = open("/repo/flussab-btor2/src/btor2.rs").read()
+    return {kw: var for (_, var, kw) in re.findall(r'(UnaryOp|BinaryOp|TernaryOp)::(\w+)(?:\([^)]*\))? => "(\w+)"', src)}
+
+BTOR2_VARIANT = _btor2_variants()
+
+
+def gen_btor2_expected(rng, n=None):
+    """well-formed BTOR2 lines together with the trace the harness must print for them (value -> text -> value)"""
+    n = rng.choice([1, 3, 8, 15]) if n is None else n
+    lines, exps = [], []
+    nid = 0
+    for _ in range(n):
+        if rng.random() < 0.1:
+            c = rng.choice(["", " a comment", " 1 sort bitvec 1", " x;y"])
+            lines.append(";" + c); exps.append("c:" + hexs(c.encode()))
+            continue
+        nid += rng.choice([1, 1, 1, 5])
+        ref = lambda: rng.randrange(1, nid + 1)
+        k = rng.random()
+        if k < 0.12:
+            w = rng.choice([1, 8, 32, 2 ** 40])
+            body, v = "sort bitvec %d" % w, "sort.bitvec.%d" % w
+        elif k < 0.17:
+            a, b = ref(), ref()
+            body, v = "sort array %d %d" % (a, b), "sort.array.%d.%d" % (a, b)
+        elif k < 0.3:
+            kw, so = rng.choice(["input", "state", "one", "ones", "zero"]), ref()
+            body, v = "%s %d" % (kw, so), "value.%d.%s" % (so, kw)
+        elif k < 0.4:
+            so = ref()
+            kw, tag, c = rng.choice([("const", "b", rng.choice(["0", "1", "0101", "1" * 70])),
+                                     ("constd", "d", rng.choice(["0", "7", "-12", "1" * 30])),
+                                     ("consth", "h", rng.choice(["0", "ff", "DEADbeef", "a" * 40]))])
+            body, v = "%s %d %s" % (kw, so, c), "value.%d.const.%s.%s" % (so, tag, hexs(c.encode()))
+        elif k < 0.5:
+            kw, so, a = rng.choice(BTOR2_UNARY), ref(), ref()
+            body, v = "%s %d %d" % (kw, so, a), "value.%d.op.%s.%d" % (so, BTOR2_VARIANT[kw], a)
+        elif k < 0.68:
+            kw, so, a, b = rng.choice(BTOR2_BINARY), ref(), ref(), ref()
+            body, v = "%s %d %d %d" % (kw, so, a, b), "value.%d.op.%s.%d.%d" % (so, BTOR2_VARIANT[kw], a, b)
+        elif k < 0.74:
+            kw, so, a, b, c = rng.choice(BTOR2_TERNARY), ref(), ref(), ref(), ref()
+            body, v = "%s %d %d %d %d" % (kw, so, a, b, c), "value.%d.op.%s.%d.%d.%d" % (so, BTOR2_VARIANT[kw], a, b, c)
+        elif k < 0.8:
+            so, a = ref(), ref()
+            if rng.random() < 0.6:
+                kw, w = rng.choice(["sext", "uext"]), rng.choice([0, 1, 24, 2 ** 63])
+                body, v = "%s %d %d %d" % (kw, so, a, w), "value.%d.op.%s(%d).%d" % (so, BTOR2_VARIANT[kw], w, a)
+            else:
+                u, l = rng.choice([7, 31, 2 ** 40]), rng.choice([0, 3])
+                body, v = "slice %d %d %d %d" % (so, a, u, l), "value.%d.op.%s(%d,%d).%d" % (so, BTOR2_VARIANT["slice"], u, l, a)
+        elif k < 0.86:
+            kw, so, a, b = rng.choice(["init", "next"]), ref(), ref(), ref()
+            body, v = "%s %d %d %d" % (kw, so, a, b), "assign.%s.%d.%d.%d" % (kw.capitalize(), so, a, b)
+        elif k < 0.92:
+            kw, a = rng.choice(["bad", "constraint", "fair", "output"]), ref()
+            body, v = "%s %d" % (kw, a), "output.%s.%d" % (kw.capitalize(), a)
+        else:
+            cs = [ref() for _ in range(rng.choice([1, 2, 3, 5]))]
+            body, v = "justice %d %s" % (len(cs), " ".join(str(c) for c in cs)), "justice.[%s]" % ",".join(str(c) for c in cs)
+        line = "%d %s" % (nid, body)
+        sym = cmt = None
+        r = rng.random()
+        if r < 0.25:
+            sym = rng.choice(["sym", "a_name", "x[3]", "ü", "a;b", "top.a;b", "assert;"])
+            line += " " + sym
+            if rng.random() < 0.3:
+                cmt = rng.choice(["", " trailing comment", " a;b ; c"])
+                line += " ;" + cmt
+        elif r < 0.35:
+            cmt = rng.choice(["", " comment", "; double", " x;y"])
+            line += " ;" + cmt
+        o = lambda x: "~" if x is None else "=" + hexs(x.encode())
+        lines.append(line); exps.append("n:%d:%s:%s:%s" % (nid, v, o(sym), o(cmt)))
+    return lines, ";".join(exps) + " => ok"
 
 
 def render_btor2(lines, final_newline=True):
@@ -570,10 +650,14 @@ def gen_doc(rng, parser=None, valid_only=False):
             exp = aig_trace(val, parser == "aig")
     else:
         ty = "-"
-        lines = gen_btor2_lines(rng)
-        data = render_btor2(lines, rng.random() < 0.8)
         flags = "-"
-        exp = None
+        if valid_only or rng.random() < 0.5:
+            lines, exp = gen_btor2_expected(rng)
+            data = render_btor2(lines, True)       # a node line must end with its line break
+        else:
+            lines = gen_btor2_lines(rng)
+            data = render_btor2(lines, rng.random() < 0.8)
+            exp = None
     if not valid_only and rng.random() < 0.45:
         for _ in range(rng.choice([1, 1, 2, 3])):
             data = mutate(rng, data)
@@ -676,6 +760,18 @@ def limit_cases(rng):
         out.append(("aig", ty, "-", b"aig 1 0 0 0 1\n\x00\x01", "REJECT"))   # second delta 1 > first input 2? (2-0=2, 2-1=1 ok) -> see expectation below
     # fix the last family: delta0 = 0 -> input0 = 2, delta1 = 1 -> input1 = 1: legal
     out = [(p, t, f, d, ("H(1,0,0,0,1,0,0,0,0);a:2,1 => ok" if d == b"aig 1 0 0 0 1\n\x00\x01" else e)) for (p, t, f, d, e) in out]
+    # binary deltas: at most 8 groups are read (values below 2^56); longer encodings are rejected, not wrapped
+    for ty in ("u64", "usize"):
+        out.append(("aig", ty, "-", b"aig 1 0 0 0 1\n" + bytes([0x82] + [0x80] * 7 + [0x00]) + b"\x00", "REJECT"))      # 9 bytes, padded 2
+        out.append(("aig", ty, "-", b"aig 1 0 0 0 1\n" + bytes([0x82] + [0x80] * 8 + [0x02]) + b"\x00", "REJECT"))      # 10 bytes, 2^64 + 2
+        out.append(("aig", ty, "-", b"aig 1 0 0 0 1\n" + bytes([0x82] + [0x80] * 6 + [0x00]) + b"\x00", "H(1,0,0,0,1,0,0,0,0);a:0,0 => ok"))  # 8 bytes, padded 2
+    # a literal out of range as the first literal of a continuation line of a clause
+    for fmt, pre in (("cnf", ""), ("wcnf", "7 "), ("gcnf", "{1} ")):
+        extra = "" if fmt == "cnf" else " 9"
+        out.append((fmt, "i32", "-", ("p %s 2 1%s\n%s1\n3 0\n" % (fmt, extra, pre)).encode(), "REJECT"))
+        out.append((fmt, "i32", "-", ("p %s 2 1%s\n%s1\nc x\n\n-3 0\n" % (fmt, extra, pre)).encode(), "REJECT"))
+        out.append((fmt, "i8", "-", ("%s1\n300 0\n" % pre).encode(), "REJECT"))
+        out.append((fmt, "i8", "h", ("p %s 2 1%s\n%s1\n-128 0\n" % (fmt, extra, pre)).encode(), "REJECT"))
     for n, exp in ((0, "REJECT"), (U64, None), (U64 + 1, "REJECT")):
         data = ("%d sort bitvec 1\n" % n).encode()
         out.append(("btor2", "-", "-", data, exp))
@@ -789,8 +885,19 @@ def corruption_cases(rng, n):
                 continue
             li = rng.randrange(len(lines))
             toks = lines[li].split(" ")
-            ti = rng.randrange(0, min(len(toks), 3))
-            new = rng.choice(["Xx", "0", "?", "18446744073709551616"]) if ti != 1 else rng.choice(["Xx", "andd", "s0rt"])
+            if ";" in toks or any(t.startswith(";") for t in toks):      # keep comments out of the corrupted range
+                toks = toks[:min(i for i, t in enumerate(toks) if t.startswith(";"))]
+                if len(toks) < 2:
+                    continue
+                lines[li] = " ".join(toks)
+            nums = [i for i, t in enumerate(toks) if t.isdigit() and not (toks[1].startswith("const") and i >= 3)]   # a constant is not an id
+            ti = rng.choice(nums) if (nums and rng.random() < 0.6) else rng.randrange(0, min(len(toks), 3))
+            if ti != 1 and toks[ti].isdigit() and ti in nums:
+                new = rng.choice(["Xx", "?", "18446744073709551616", "18446744073709551616", "99999999999999999999999"])
+            elif ti == 1:
+                new = rng.choice(["Xx", "andd", "s0rt"])
+            else:
+                continue
             if toks[ti] == new:
                 continue
             toks[ti] = new
